@@ -56,6 +56,7 @@ def po_new_bar(S):
 def po_supply(S):
     w = world(S)
     m = w.market
+    all0 = dump(raw_state(w))
     amount = S.dec("amount", None, None)
     flag = S.bool("collateral")
     s0, w0 = supply_amount(m, w.op), wallet_balance(w, w.op)
@@ -64,6 +65,7 @@ def po_supply(S):
     try:
         m.supply(w.op, amount, flag)
     except REJECT:
+        S.unchanged("rejected=>nothing-moved", all0, dump(raw_state(w)))
         return
     S.cover("accepted")
     S.check("wallet-debited-by-amount", S.eq(wallet_balance(w, w.op), w0 - amount) or (abs(w0 - amount) <= abs(w0) * Decimal("0.0000100001") and wallet_balance(w, w.op) == 0))
@@ -78,6 +80,7 @@ def po_supply(S):
 def po_withdraw(S):
     w = world(S)
     m = w.market
+    all0 = dump(raw_state(w))
     amount = S.dec("amount", None, None)
     full = S.bool("withdraw_all(amount=None)")
     s0, w0 = supply_amount(m, w.op), wallet_balance(w, w.op)
@@ -90,6 +93,7 @@ def po_withdraw(S):
         else:
             m.withdraw(w.op, amount)
     except REJECT:
+        S.unchanged("rejected=>nothing-moved", all0, dump(raw_state(w)))
         return
     S.cover("accepted")
     moved = s0 if full else amount
@@ -109,6 +113,7 @@ def po_withdraw(S):
 def po_borrow(S):
     w = world(S)
     m = w.market
+    all0 = dump(raw_state(w))
     amount = S.dec("amount", None, None)
     d0, w0 = debt_amount(m, w.op), wallet_balance(w, w.op)
     others0 = dump(positions(m, (), (w.op,)))
@@ -116,6 +121,7 @@ def po_borrow(S):
     try:
         m.borrow(w.op, amount)
     except REJECT:
+        S.unchanged("rejected=>nothing-moved", all0, dump(raw_state(w)))
         return
     S.cover("accepted")
     S.check("wallet-credited-by-amount", S.eq(wallet_balance(w, w.op), w0 + amount))
@@ -130,6 +136,7 @@ def po_borrow(S):
 def po_repay(S):
     w = world(S)
     m = w.market
+    all0 = dump(raw_state(w))
     amount = S.dec("amount", None, None)
     full = S.bool("repay_all(amount=None)")
     d0, w0 = debt_amount(m, w.op), wallet_balance(w, w.op)
@@ -142,6 +149,7 @@ def po_repay(S):
         else:
             m.repay(w.op, amount)
     except REJECT:
+        S.unchanged("rejected=>nothing-moved", all0, dump(raw_state(w)))
         return
     S.cover("accepted")
     moved = d0 if full else amount
@@ -166,6 +174,7 @@ def _coll_shapes(shapes):
 def po_repay_collateral(S):
     w = world(S)
     m = w.market
+    all0 = dump(raw_state(w))
     c = [t for t in m._supplies][0]
     amount = S.dec("amount", 0, None, lo_strict=True)
     d0, s0 = debt_amount(m, w.op), supply_amount(m, c)
@@ -175,6 +184,7 @@ def po_repay_collateral(S):
     try:
         m.repay(w.op, amount, True, c)
     except REJECT:
+        S.unchanged("rejected=>nothing-moved", all0, dump(raw_state(w)))
         return
     S.cover("accepted")
     paid = w.actions[-1].amount
